@@ -10,7 +10,8 @@ Input (stdin, JSON): {"problems": {pid: problem}, "cases": [run, ...], "spy": bo
              "pre": [action], "post": [action]  (further calls on the SAME BIOGEME object before / after the estimation; after the
              "post" actions the fields of the returned results object are exported again under "after"),
              action = ["eval", {name: hex}, scaled] | ["like", {name: hex}] | ["check_derivatives", {name: hex}]
-                      | ["estimate_from", {name: hex}] | ["quick_from", {name: hex}]}
+                      | ["estimate_from", {name: hex}] | ["quick_from", {name: hex}]
+                      | ["bootstrap_fault", B, fault_at, "optimize"|"derivatives", exception name, numpy seed]}
   a problem with "kind": "expo" is the duration / count model  sum_n y_n log(lin_n) - lin_n t_n,  lin_n = sum_k param_k * column_k
   ("lin": [[param, column-or-null]], columns "t" and optionally "y"): concave, undefined (NaN) where some lin_n < 0.
 Prints one line '@@<json list>' with one result per run (an exception is reported as data).
@@ -276,6 +277,51 @@ def main():
                 elif kind == 'quick_from':
                     b.change_init_values({k: float.fromhex(v) for k, v in a[1].items()})
                     b.quick_estimate()
+                elif kind == 'bootstrap_fault':
+                    # estimate(run_bootstrap=True) hit by a fault inside its `fault_at`-th re-estimation (1-based), raised either on
+                    # entering optimize() or in the middle of it (second evaluation of the derivatives); the exception is caught by the
+                    # caller, who goes on using the SAME object
+                    _, B, fault_at, where, exc_name, seed = a
+                    import biogeme.exceptions as bexc
+                    try:
+                        from biogeme_optimization.exceptions import OptimizationError
+                    except Exception:  # noqa
+                        OptimizationError = RuntimeError
+                    exc = {'RuntimeError': RuntimeError, 'KeyboardInterrupt': KeyboardInterrupt, 'OptimizationError': OptimizationError,
+                           'BiogemeError': bexc.BiogemeError}.get(exc_name, RuntimeError)
+                    state = {'n': 0, 'armed': False, 'evals': 0}
+                    real_opt, real_der = b.optimize, b.calculate_likelihood_and_derivatives
+
+                    def opt_wrap(starting_values=None):
+                        state['n'] += 1
+                        state['armed'] = state['n'] == fault_at + 1
+                        state['evals'] = 0
+                        if state['armed'] and where == 'optimize':
+                            raise exc('injected fault on entering a bootstrap re-estimation')
+                        return real_opt(starting_values)
+
+                    def der_wrap(*aa, **kk):
+                        if state['armed'] and where == 'derivatives':
+                            state['evals'] += 1
+                            if state['evals'] >= 2:
+                                raise exc('injected fault in the middle of a bootstrap re-estimation')
+                        return real_der(*aa, **kk)
+
+                    b.optimize = opt_wrap
+                    b.calculate_likelihood_and_derivatives = der_wrap
+                    np.random.seed(int(seed))
+                    b.bootstrap_samples = int(B)
+                    import contextlib
+                    import io
+                    try:
+                        with contextlib.redirect_stderr(io.StringIO()):
+                            b.estimate(run_bootstrap=True)
+                        pre_log.append({'action': kind, 'fault': None, 'optimizations': state['n']})
+                    except BaseException as e:  # noqa  (KeyboardInterrupt included: this is the fault we inject)
+                        pre_log.append({'action': kind, 'fault': type(e).__name__, 'optimizations': state['n']})
+                    finally:
+                        del b.optimize
+                        del b.calculate_likelihood_and_derivatives
                 else:
                     raise ValueError('unknown action ' + str(kind))
 
@@ -290,6 +336,8 @@ def main():
                     'bootstrap': None if getattr(d, 'bootstrap', None) is None else hxm(d.bootstrap),
                 }
 
+            pre_log = []
+            res['pre_log'] = pre_log
             for a in run.get('pre') or []:
                 act(a)
             del calls[:]
